@@ -132,6 +132,23 @@ PROPS = {
         "real_vs_stub": "real code: internal/locate (RegionCache with background goroutines, SortedRegions, CodecPDClient, store cache, RegionRequestSender, replica selector), config/retry, internal/apicodec (v1), tikvrpc, internal/mockstore/mocktikv (Cluster, RPCClient, Session checks, MVCC store); stub: PD region queries (simPD over snapshots of the mock cluster), gRPC client (simClient), store liveness probe, clock",
         "assumptions": ["every region always has a leader known to PD; one store down at a time", "a PD answer is a consistent snapshot (current or k events old), never a list with holes", "no buckets, down / pending peers, TiFlash, witnesses, forwarding; API v1 transactional key mode", "LocateEndKey is never called with an empty key (known finding F1)"],
     },
+    "C15": {
+        "engine": "keyspacesim",
+        "level_text": "keyspace-bound clients (transactional: tikv.NewTestKeyspaceTiKVStore with codec v2; raw: rawkv.Client with API v2) for keyspace A, drawn from 14 ids incl. ones that carry into the next byte, and for its two neighbours A-1 and A+1, over the simulated network and PD against one shared store (repo mock / reference TiKV model) that also holds sentinel records just outside A's bounds and v1-style records; region borders exactly on keyspace prefixes and ends, inside keyspaces, spanning both bounds, or one region for everything (memcomparable region keys); splits, merges, leader moves, region errors incl. an EpochNotMatch that lists every region and KeyNotInRegion; workloads: optimistic / pessimistic / async-commit / 1PC / pipelined transactions with get, batch get, scans in both directions with empty bounds, lock keys, a writer crashed inside Commit whose locks survivors scan, resolve and read through, ScanLocks, ResolveLocksForRange, DeleteRange, SplitRegions, raw put / get / delete / batch ops / scans / delete-range / checksum / CAS; oracles: per-keyspace model over LOGICAL keys (sorted map / committed versions) and final store state, a reflective wire monitor below the codec (every key-bearing field of every request inside [prefix, end], context carries V2 and the keyspace id), above the codec (no response, lock, key-error or region-descriptor key still prefixed) and at API level (error keys, lock descriptions, LocateKey bounds logical), isolation audit (everything outside A byte-identical before and after), request-storm liveness, and for every command that crosses: context attach, region-error synthesis, batch conversion",
+        "level_note": "trusted: the models, the wire monitor's field list, the front that supplies what the mock lacks (see sim/engines/keyspacesim/CHECK.md); NOT decided: the property's quantifier over the whole command catalogue by reflection - that is input enumeration; the evidence lists which command types crossed the wire (about 31 of 54) and which were not reached; response direction of the batch conversion; unbounded reverse scans are judged only in layouts where every keyspace lies within one region (known finding F1 applies to both codecs alike)",
+        "level": "exploration",
+        "modes": [
+            {"mode": "txn", "quick": {"runs": 3008}, "thorough": {"runs": 100000}},
+            {"mode": "txn-R", "quick": {"runs": 3008}, "thorough": {"runs": 100000}},
+            {"mode": "locks", "quick": {"runs": 2000}, "thorough": {"runs": 60000}},
+            {"mode": "locks-R", "quick": {"runs": 2000}, "thorough": {"runs": 60000}},
+            {"mode": "raw", "quick": {"runs": 3008}, "thorough": {"runs": 100000}},
+            {"mode": "pipe-R", "quick": {"runs": 2000}, "thorough": {"runs": 50000}},
+        ],
+        "rule": "seeded programs per keyspace with topology events and region errors; non-trivial = not aborted, at least 5 judged calls and at least 2 command types crossed the wire; distinct = canonical RPC traces of the live clients",
+        "real_vs_stub": "real code: internal/apicodec (v2), tikv.CodecClient, locate.CodecPDClient with keyspace, tikv.KVStore, rawkv.Client, txnkv/transaction, txnkv/txnsnapshot, txnkv/txnlock, txnkv/rangetask, tikv/gc.go, tikv/split_region.go, internal/locate, config/retry, tikvrpc; server: mocktikv RPC server + MVCCLevelDB (modes without suffix, raw commands executed on the mock's raw engine by the front), reference model sim/refkv (modes -R); stub: network, PD (SimPD with a wrapper serving LoadKeyspace), clock, store liveness",
+        "assumptions": ["no key or region border that is a proper prefix of a keyspace end bound with trailing zero bytes", "no message is lost except at the planned writer crash", "raw TTLs are not used"],
+    },
     "C16": {
         "engine": "pipesim",
         "level_text": "mode buffer: the real PipelinedMemDB with a simulator-owned flush function (parks in the simulator, which decides from the seed when each flush ends relative to the next reads and writes and whether it fails, fully or after n mutations) and buffer getter; seeded programs of Set / Delete / flags / Get / GetLocal / BatchGet / Flush(force or threshold-driven) / FlushWait / Staging / Release / Cleanup under three threshold families; oracle: a three-level map model {mutable, flushing, flushed}: every read returns the latest write at any level, deletions hide, every buffered mutation is handed to exactly one flush, generations +1, at most one flush in flight, a flush error is reported and nothing is lost silently, the cache never serves a value staler than a flush; modes txn / txn-faults: a real pipelined KVTxn (flush / resolve concurrency varied, thresholds lowered through the existing failpoints) over the simulated network against the reference TiKV model (Flush with generations, BufferBatchGet, range ResolveLock), region borders on the smallest / largest flushed key, single flushed key, rollback after one flush, flush RPC failures; oracle: reads inside the transaction, after Commit / Rollback and the end of the background work no lock of the transaction is left anywhere (mode txn: only retried faults), one outcome decided on the primary on every flushed key, later and concurrent readers see exactly it (txn-faults: lossy faults, judged after recovery)",
@@ -233,13 +250,14 @@ PROPS = {
     },
     "C17": {
         "engine": "latchsim",
-        "level_text": "the real Latches / LatchesScheduler; mode direct-enum enumerates completely every scenario of 1-3 transactions x 1-2 colliding keys with every relative timestamp order and, inside each, every interleaving of acquire/release steps at method and slot granularity (states merged); mode direct samples 2-4 transactions x 1-3 keys; mode sched runs the scheduler goroutine and 2-4 callers with every shared-memory step (verif-tagged yield points in acquireSlot / releaseSlot / wakeup / Lock) released one at a time by the seeded simulator; a per-KEY reference latch model checks exclusivity, the exact staleness verdict and progress (every Lock returns within a step bound after the last unlock)",
-        "level_note": "trusted: the per-key reference model (sim/engines/latchsim/model.go), the hook placement (never under a mutex); exhaustive only at the stated step granularity on one thread; slot-list recycling (timestamps minutes apart, >= 5 nodes per slot) is outside the property's quantification and only reachable in the opt-in mode direct-wide",
+        "level_text": "the real Latches / LatchesScheduler; mode direct-enum enumerates completely every scenario of 1-3 transactions x 1-2 colliding keys with every relative timestamp order and, inside each, every interleaving of acquire/release steps at method and slot granularity (states merged); mode direct samples 2-4 transactions x 1-3 keys; mode sched runs the scheduler goroutine and 2-4 callers with every shared-memory step (verif-tagged yield points in acquireSlot / releaseSlot / wakeup / Lock) released one at a time by the seeded simulator; mode direct-wide samples one slot with six keys, four transactions and TSO-scaled timestamps minutes apart, which makes the slot-list recycling run; a per-KEY reference latch model checks exclusivity, the exact staleness verdict and progress (every Lock returns within a step bound after the last unlock)",
+        "level_note": "trusted: the per-key reference model (sim/engines/latchsim/model.go), the hook placement (never under a mutex); exhaustive only at the stated step granularity on one thread; mode direct-wide (one slot, six keys, four transactions, TSO-scaled timestamps minutes apart) makes the slot-list recycling run; the recycling deliberately forgets released keys, which is recorded as known finding F28",
         "level": "exploration",
         "modes": [
             {"mode": "direct-enum", "quick": {"runs": 20800}, "thorough": {"runs": 81000}},
             {"mode": "direct", "quick": {"runs": 1600}, "thorough": {"runs": 16000}},
             {"mode": "sched", "quick": {"runs": 16000}, "thorough": {"runs": 160000}},
+            {"mode": "direct-wide", "quick": {"runs": 3200}, "thorough": {"runs": 160000}},
         ],
         "rule": ("direct-enum: run index = scenario of the complete enumeration (the enumeration ends by itself: 20688 scenarios quick, 80560 thorough tier), all step interleavings explored inside a run; "
                  "direct: seeded scenarios, exploration cut at 3000 distinct states; sched: seeded schedules of parked goroutines; non-trivial = at least two transactions contend; distinct = canonical step histories"),
@@ -299,6 +317,7 @@ ENGINES.append({"name": "latchsim", "path": "sim/engines/latchsim", "serves_prop
                 "kind_free_text": "exhaustive and seeded interleaving exploration of the local latch scheduler against a per-key reference model (yield hooks in internal/latch)"})
 
 for _e in (("locatesim", ["C09"], "region cache over a simulated, reordering and stale PD with topology events; containment, coverage, index non-regression and convergence oracles"),
+           ("keyspacesim", ["C15"], "keyspace-bound transactional and raw clients beside neighbour keyspaces and sentinels; logical-key models, reflective wire monitor, isolation audit"),
            ("pipesim", ["C16"], "pipelined buffer with a simulator-owned flush against a three-level model; pipelined transactions over the simulated network against the reference TiKV model"),
            ("sendsim", ["C10"], "fault-script enumeration and sampling for one RegionRequestSender call on the simulated clock"),
            ("rawsim", ["C11"], "raw KV client over the simulated network with topology changes; sorted-map model and per-key linearizability"),
